@@ -269,7 +269,14 @@ def post_get_range(an, cb, t, pay):
     """slice.get(range) == Some(s): the range is within bounds and len(s) is its width."""
     base, rng = t['args'][0], t['args'][1]
     L = _len_of_arg(an, base)
-    if L is None or not is_place(rng):
+    if L is None:
+        return []
+    rty = (rng['pl'].get('ty') or an.fn.local_ty(rng['pl']['l'])) if is_place(rng) else rng.get('ty', '')
+    if rty == 'usize':
+        # slice.get(i) == Some(_): i < len
+        ix = an.ev_op(rng)
+        return [lt(ix, L)] if ix is not None else []
+    if not is_place(rng):
         return []
     agg = an._range_agg(rng)
     if not agg:
